@@ -7,7 +7,7 @@
 From Coq Require Import List NArith ZArith.
 From GM Require Import Base.Lts Codec.Packet Session.Store Client.Future Client.Client Client.ClientSpec
   Client.ClientWitness Client.ClientInvSbs Client.ClientInvRx Client.ClientKept Client.ClientTruth Client.ClientTotal
-  Client.TraceScan Client.ClientScanProofs Client.ClientHist Client.Tracker.
+  Client.TraceScan Client.ClientScanProofs Client.ClientHist Client.Tracker Client.ClientResend.
 Import ListNotations.
 Open Scope N_scope.
 
@@ -68,6 +68,15 @@ Theorem C09_scan_pubrec_sound : forall es s, run step init es = Some s ->
   scan_pubrec XInit es = Some (pexp_of (k_ppc (k s))).
 Proof. exact scan_pubrec_accepted. Qed.
 Print Assumptions C09_scan_pubrec_sound.
+
+(* retransmission scanner: once AllPackets(Outgoing) has listed the stored packets, the processor's Sends
+   are exactly these, in listing order, DUP set on PUBLISH, PUBREL as it is, nothing else of the processor
+   in between; a failing Send ends the obligation.  What the scanner still expects at the end of an accepted
+   trace is what the model's processor still has to resend (nothing once it is back in Receive). *)
+Theorem C09_scan_resend_sound : forall es s, run step init es = Some s ->
+  scan_resend RNone es = Some (rexp_of (k_ppc (k s))).
+Proof. exact scan_resend_accepted. Qed.
+Print Assumptions C09_scan_resend_sound.
 
 (* client.Tracker (keep-alive arithmetic) and the pinger's rule, over an explicit clock (Client/Tracker.v) *)
 Local Open Scope Z_scope.
